@@ -29,9 +29,12 @@ def main():
     skip_confirm = '--skip-confirm' in sys.argv
     dst = os.path.join(VERIF, 'seeded', name)
     os.makedirs(dst, exist_ok=True)
-    shutil.copy(os.path.join(src, 'patch.diff'), os.path.join(dst, 'patch.diff'))
-    shutil.copy(os.path.join(src, 'demo.rs'), os.path.join(dst, 'demo.rs'))
-    notes = open(os.path.join(src, 'notes.md')).read() if os.path.exists(os.path.join(src, 'notes.md')) else ''
+    if src != '-':
+        shutil.copy(os.path.join(src, 'patch.diff'), os.path.join(dst, 'patch.diff'))
+        shutil.copy(os.path.join(src, 'demo.rs'), os.path.join(dst, 'demo.rs'))
+        notes = open(os.path.join(src, 'notes.md')).read() if os.path.exists(os.path.join(src, 'notes.md')) else ''
+    else:
+        notes = json.load(open(os.path.join(dst, 'meta.json'))).get('needs_to_manifest', '')
     meta = dict(name=name, property=prop, source='independent sub-agent given only the property text and a scratch worktree',
                 needs_to_manifest=notes[:3000])
     old_meta = os.path.join(dst, 'meta.json')
